@@ -127,6 +127,7 @@ type (
 		Vars     []QVar
 		Body     Expr
 		Patterns []Expr // optional triggers: forall x T {f(x), g(x)} :: body
+		AltPatterns [][]Expr // further alternative triggers: {p1} {p2} :: body
 	}
 	EOld struct{ X Expr }
 	EAt  struct {
@@ -272,7 +273,12 @@ func (p *parser) expr() (Expr, error) {
 			}
 		}
 		var pats []Expr
-		if p.accept("{") {
+		var more [][]Expr
+		for p.accept("{") {
+			if pats != nil {
+				more = append(more, pats)
+				pats = nil
+			}
 			for {
 				pe, err := p.ternary()
 				if err != nil {
@@ -294,7 +300,7 @@ func (p *parser) expr() (Expr, error) {
 		if err != nil {
 			return nil, err
 		}
-		return &EQuant{Forall: t.s == "forall", Vars: vars, Body: body, Patterns: pats}, nil
+		return &EQuant{Forall: t.s == "forall", Vars: vars, Body: body, Patterns: pats, AltPatterns: more}, nil
 	}
 	return p.iff()
 }
